@@ -58,7 +58,9 @@ type shared struct {
 	asts  []*xast.Policy
 }
 
-func uid(t, id string) types.EntityUID { return types.NewEntityUID(types.EntityType(t), types.String(id)) }
+func uid(t, id string) types.EntityUID {
+	return types.NewEntityUID(types.EntityType(t), types.String(id))
+}
 
 func newShared() (*shared, error) {
 	s := &shared{}
@@ -97,7 +99,7 @@ func newShared() (*shared, error) {
 		s.asts = append(s.asts, (*xast.Policy)(p.AST()))
 	}
 	s.breq = batch.Request{Principal: batch.Variable("p"), Action: s.req.Action, Resource: s.req.Resource,
-		Context: types.NewRecord(types.RecordMap{"n": batch.Variable("n"), "override": types.NewRecord(types.RecordMap{"by": batch.Variable("p")})}),
+		Context:   types.NewRecord(types.RecordMap{"n": batch.Variable("n"), "override": types.NewRecord(types.RecordMap{"by": batch.Variable("p")})}),
 		Variables: batch.Variables{"p": {uid("U", "alice"), uid("U", "ghost"), uid("U", "bob")}, "n": {types.Long(2), types.Long(9)}}}
 	// the baseline is taken before ANY operation has run on the inputs
 	s.base = core.Digest(s.roots()...)
